@@ -42,6 +42,11 @@ func c06rSigs() []c06rSig {
 					s = append(s, ids[i])
 				}
 				rt := NewProfilesRouter(cm)
+				// the router must not keep using the caller's map: overwrite every entry with a foreign consumer (index -1)
+				foreign, _ := xconsumer.NewProfiles(func(_ context.Context, d pprofile.Profiles) error { return cb(-1, d) })
+				for k := range cm {
+					cm[k] = foreign
+				}
 				c, err := rt.Consumer(s...)
 				if err != nil {
 					return nil, false, err
